@@ -76,7 +76,7 @@ try:
     det = {}
     outdir = tempfile.mkdtemp(prefix="evseedout.")
     for pid in props:
-        pr = subprocess.run([os.path.join(ROOT, "bin", "evcheck"), "-repo", d, "-verif", ROOT, "-out", outdir, pid], env=ENV, capture_output=True, text=True)
+        pr = subprocess.run([os.environ.get("EVCHECK_BIN", os.path.join(ROOT, "bin", "evcheck")), "-repo", d, "-verif", ROOT, "-out", outdir, pid], env=ENV, capture_output=True, text=True)
         lines = [l.strip() for l in pr.stdout.splitlines() if l.startswith("  C") or l.startswith("UNDECIDED")]
         det[pid] = {"exit": pr.returncode, "reports": [l[:400] for l in lines[:6]]}
     shutil.rmtree(outdir, ignore_errors=True)
